@@ -12,10 +12,7 @@ import (
 	"flag"
 	"fmt"
 	"os"
-	"runtime"
 	"sync"
-	"sync/atomic"
-	"time"
 )
 
 var (
@@ -34,40 +31,13 @@ func emit(v interface{}) {
 	outW.Flush()
 }
 
-// Watchdog: the run (stress, sharedlo, replay) or the current round (lin,
-// selftest: they call kick) must finish within the timeout.
-var lastKick atomic.Int64
-
-func kick() { lastKick.Store(time.Now().UnixNano()) }
-
-func startWatchdog(mode string, seconds int) {
-	if seconds <= 0 {
-		return
-	}
-	kick()
-	limit := time.Duration(seconds) * time.Second
-	go func() {
-		for {
-			time.Sleep(50 * time.Millisecond)
-			if time.Since(time.Unix(0, lastKick.Load())) > limit {
-				buf := make([]byte, 1<<20)
-				n := runtime.Stack(buf, true)
-				if n > 4000 {
-					n = 4000
-				}
-				emit(map[string]interface{}{"mode": mode, "result": "hang", "goroutines": string(buf[:n])})
-				os.Exit(3)
-			}
-		}
-	}()
-}
-
 func main() {
 	mode := flag.String("mode", "", "lin | linfile | selftest | stress | sharedlo | replay")
 	seed := flag.Int64("seed", 1, "seed of the single PRNG")
 	n := flag.Int("n", 0, "size knob: rounds (lin), ops per goroutine (stress), calls per goroutine (sharedlo), ops (selftest); 0 = mode default")
 	threads := flag.Int("threads", 4, "goroutines (stress, sharedlo)")
-	timeout := flag.Int("timeout", 60, "watchdog in seconds (per round in lin/selftest, whole run otherwise)")
+	timeout := flag.Int("timeout", 600, "hard watchdog in seconds without progress (a confirmed deadlock = every goroutine blocked, nothing runnable, is reported after ~15 s whatever this value)")
+	procs := flag.Int("procs", 0, "stmt/sized: GOMAXPROCS for the run (0 = leave)")
 	file := flag.String("file", "", "history file for -mode linfile")
 	exhaustive := flag.Bool("exhaustive", false, "lin/linfile: also brute-force histories with at most -brutemax operations")
 	bruteMax := flag.Int("brutemax", 8, "largest history checked by brute force")
@@ -117,6 +87,10 @@ func main() {
 		modeSharedLO(*seed, *n, *threads)
 	case "batch":
 		modeBatch(*seed, *n, *threads)
+	case "stmt":
+		modeStmt(*seed, *n, *threads, *procs)
+	case "sized":
+		modeSized(*seed, *n, *threads, *procs)
 	case "replay":
 		switch *variant {
 		case "":
